@@ -43,7 +43,7 @@ BLOCKS = {
         kw=lambda a: {"wl": a["wl"]},
         term=lambda a: "Waveguide %s %s %s %s" % (rlit(a["L"]), rlit(a["nr"]), rlit(a["ni"]), rlit(a["wl"])), n=2),
     "PhaseShifter": dict(
-        gen=lambda r, ints: {"PS": r.randint(-2, 2) if ints else r.randint(-128, 128) / 64.0},
+        gen=lambda r, ints: {"PS": r.choice([-3, -1, -1, 0, 1, 2, -2, 3]) if ints else r.choice([-1.0, -3.0, r.randint(-128, 128) / 64.0])},
         make=lambda a: lk.PhaseShifter(), kw=lambda a: {"PS": a["PS"]},
         term=lambda a: "PhaseShifter %s" % rlit(a["PS"]), n=2),
     # the shift given ONLY through the constructor default (renamed parameter, nothing passed at solve time)
